@@ -54,12 +54,12 @@ CTYPE = {"nt": "application/n-triples", "turtle": "text/turtle", "xml": "applica
 
 def gen_channel(rng, bnodes):
     fmts = list(LABEL_STABLE) if bnodes else FORMATS
-    transports = ["raw", "file", "files", "files", "gz", "xz", "zip", "zip", "zips", "rdflib_graph", "store"]
+    transports = ["raw", "file", "files", "files", "gz", "xz", "zip", "zip", "zips", "rdflib_graph", "store", "dataset_graph"]
     if not bnodes:
         transports += ["url", "urls"]
     tr = rng.choice(transports)
     ch = {"transport": tr}
-    if tr in ("rdflib_graph", "store"):
+    if tr in ("rdflib_graph", "store", "dataset_graph"):
         ch["format"] = None
         ch["order_seed"] = rng.randrange(1 << 20)
         return ch
@@ -149,6 +149,18 @@ def build_channel(sim, triples, ch, tag):
     fmt = ch["format"]
     if tr == "rdflib_graph":
         return {"rdflib_graph": gen.to_rdflib_graph(triples)}
+    if tr == "dataset_graph":
+        # one named graph of a Dataset: it shares its store with a sibling graph whose statements are not part of it
+        import rdflib
+        ds = rdflib.Dataset()
+        g = ds.graph(rdflib.URIRef("urn:graph:wanted"))
+        for s, p, o in triples:
+            g.add((gen.to_rdflib_term(s), gen.to_rdflib_term(p), gen.to_rdflib_term(o)))
+        other = ds.graph(rdflib.URIRef("urn:graph:other"))
+        cls = gen.classes_of(triples, scen_type_prop(triples))
+        other.add((rdflib.URIRef(gen.EX + "intruder"), rdflib.URIRef(scen_type_prop(triples)), rdflib.URIRef(cls[0] if cls else gen.EX + "C0")))
+        other.add((rdflib.URIRef(gen.EX + "intruder"), rdflib.URIRef(gen.EX + "p0"), rdflib.Literal("intruding value")))
+        return {"rdflib_graph": g}
     if tr == "store":
         return {"rdflib_graph": gen.to_rdflib_graph(triples, cls=SimStore).configure(sim, ch["order_seed"], independent=True)}
     # every document of a multi-part delivery is self-contained: its own prefix labels (the same label may name
@@ -233,6 +245,10 @@ def build_channel(sim, triples, ch, tag):
     else:
         raise ValueError(tr)
     return kw
+
+
+def scen_type_prop(triples):
+    return gen.CUSTOM_TYPE if any(t[1][1] == gen.CUSTOM_TYPE for t in triples) else gen.RDF_TYPE
 
 
 def _kw(scen, **extra):
